@@ -79,6 +79,7 @@ func (p *Parser) parseNext() error {
 		return fmt.Errorf("at position %d: %w", start, err)
 	}
 
+	verifYield("operand", p)
 	p.operandStack = append(p.operandStack, operand)
 	return nil
 }
@@ -106,6 +107,7 @@ func (p *Parser) parseOperator() error {
 	}
 
 	// Create operation with current operand stack
+	verifYield("operator", p)
 	operation := Operation{
 		Operator: operator,
 		Operands: make([]core.Object, len(p.operandStack)),
@@ -115,6 +117,7 @@ func (p *Parser) parseOperator() error {
 	p.ops = append(p.ops, operation)
 
 	// Clear operand stack
+	verifYield("copied", p)
 	p.operandStack = nil
 
 	return nil
